@@ -4,6 +4,7 @@
 #include "rt_common.h"
 #include <pika/synchronization/event.hpp>
 #include <pika/execution_base/this_thread.hpp>
+#include <pika/thread.hpp>
 #include <memory>
 
 enum Phase { P_WORK, P_YIELD, P_BOOST_YIELD, P_SUSPEND, NPHASE };
@@ -92,6 +93,61 @@ static void tree_prog()
     pmc_outcome("ok");
 }
 
+// recycled task objects: a pika::thread that received an interruption request it never consumed terminates,
+// its thread object (and stack) is re-used for the next tasks - they must run to completion like any other
+// task (bodies that suspend: the first suspension of a victim is where a stale request would strike)
+static void recycled_prog()
+{
+    static Ledger L;
+    L = Ledger{};
+    g = &L;
+    int victims = 1 + pmc_choose(2, 0);
+    int yields_before_interrupt = pmc_choose(3, 0);
+    int sender_victim = pmc_choose(2, 0);    // victims are pika::threads or scheduled senders
+    pmc_on_stuck(on_stuck);
+    rt::config c;
+    c.workers = 1 + pmc_choose(2, 0);
+    c.extra = {"pika.thread_queue.max_terminated_threads=0"};    // terminated objects are recycled at once
+    rt::start(c);
+    static int completed, errors;
+    completed = errors = 0;
+    rt::spawn([&, victims, yields_before_interrupt, sender_victim] {
+        Enter e(0);
+        {
+            pika::thread a([] { pika::this_thread::suspend(pika::threads::detail::thread_schedule_state::pending, "C01 predecessor"); });
+            e.pause();
+            for (int i = 0; i < yields_before_interrupt; ++i) pika::this_thread::yield();
+            a.interrupt();
+            a.join();
+            e.resume();
+        }
+        for (int v = 0; v < victims; ++v)
+        {
+            auto body = [v] {
+                Enter ev(1 + v);
+                ev.pause();
+                pika::this_thread::suspend(pika::threads::detail::thread_schedule_state::pending, "C01 victim");
+                ev.resume();
+                ++completed;
+            };
+            ++g->spawned;
+            e.pause();
+            if (sender_victim)
+            {
+                try { rt::tt::sync_wait(rt::ex::schedule(rt::ex::thread_pool_scheduler{}) | rt::ex::then(body)); }
+                catch (...) { ++errors; }
+            }
+            else { pika::thread b(body); b.join(); }
+            e.resume();
+        }
+    });
+    rt::stop();
+    PMC_ASSERT(errors == 0, "task-dropped", "%d task(s) completed with an error they did not raise themselves", errors);
+    for (int v = 0; v < victims; ++v)
+        PMC_ASSERT(L.entered[1 + v] == 1 && L.left[1 + v] == 1 && completed == victims, "task-dropped", "task %d on a recycled thread object: entered %d, left %d; %d of %d bodies ran to completion", 1 + v, L.entered[1 + v], L.left[1 + v], completed, victims);
+    pmc_outcome("victims=%d completed=%d", victims, completed);
+}
+
 int main(int argc, char** argv)
 {
     static const char* sites = "thread_data::(set_state_tagged|restore_state|set_state)|thread_queue|scheduling_loop|queue_holder|set_thread_state|set_active_state|create_work|create_thread";
@@ -100,6 +156,7 @@ int main(int argc, char** argv)
     static const char* nfocus = "F-addr: state word of every task; F-site (rmw, cas): thread_data state transitions, set_thread_state/set_active_state, scheduling_loop (switch_status, queue hand-off)";
     static const pmc_spec specs[] = {
         // quick tier: narrow focus, every policy at bound 1, default policy at bound 2
+        {"recycled_after_interrupt", recycled_prog, 1, 2, 0.06, 0.04, 1, nfocus, nsites, "rc"},
         {"lpf_w2_c2", tree_prog<0, 2, 2>, 1, -1, 0.3, 0, 1, nfocus, nsites, "rc"},
         {"lpf_w1_c2", tree_prog<0, 1, 2>, 1, -1, 0.08, 0, 1, nfocus, nsites, "rc"},
         {"lpf_w2_c3", tree_prog<0, 2, 3, false, true>, 1, -1, 0.1, 0, 1, nfocus, nsites, "rc"},
